@@ -101,7 +101,7 @@ def run(ctx):
         pushes = [s for s in ev.sites.values() if s.callee[0] == "Vec::<T, A>::push"]
         final = [s for s in pushes if any(x.op == "param" and x.a[1] == "sig" for x in subterms(s.args[1])) and any(x.op == "call" and B.cname(x) == "Neg::neg" for x in subterms(s.args[1]))]
         ctx.ob("E5.equation", fkc + "/final", len(final) == 1, "exactly one push of (sig, -G) after the loop (found %d)" % len(final), where=where(c))
-    for fk2 in ("helpers::pairing_g1_g2", "helpers::pairing_g2_g1"):
+    for fk2 in ("<Bls12381G1Impl as Pairing>::pairing", "<Bls12381G2Impl as Pairing>::pairing"):
         check_pipeline(ctx, P, fk2)
     # positive control for the adapter deny-list
     from .posctl import run_posctl
